@@ -276,6 +276,18 @@ class State:
             self.heap[fid] = a
         return a
 
+    def alloc_arr(self):
+        a = self.heap.get('$alloc')
+        if a is None:
+            a = self.ctx.alive0
+            self.heap['$alloc'] = a
+        return a
+
+    def allocate(self, o):
+        a = self.alloc_arr()
+        self.assume(z3.Not(z3.Select(a, o)))
+        self.heap['$alloc'] = z3.Store(a, o, True)
+
     def new_cell(self, term):
         cid = next(_uid)
         self.cells[cid] = term
@@ -344,6 +356,9 @@ class Ctx:
         self._oid_count = {}
         self.alive0 = z3.Const('alive0', z3.ArraySort(Ref, z3.BoolSort()))
         self.max_paths = 4000
+        self.merge_paths = True
+        self.no_merge_in_loops = False
+        self.named_appends = True
         self.used_contracts = set()
         self.inlined = set()
         self.record_classes_all = set()
@@ -355,6 +370,7 @@ class Ctx:
         self.await_hook = None
         self.spec_builtin_hook = None
         self.type_aliases = {}
+        self.ghost_objects = {}      # name -> RefV (global ghost objects such as the call log)
 
     ALIASES = {'float_': 'float', '_float': 'float', 'int_': 'int', '_int': 'int', 'str_': 'str', '_str': 'str',
                'bytes_': 'bytes', '_bytes': 'bytes', 'List': 'list', 'Dict': 'dict', 'Set': 'set',
